@@ -295,7 +295,10 @@ func (p *Pop) writeFile(f *PFile) {
 			return
 		}
 		if f.Link != "" && f.specNamed() {
-			data := "." + filepath.Base(path) + ".linked-data"
+			// (a data file of its own for every write: a later file of the same name, written
+			// after this one was renamed, must not share it)
+			p.nmarker++
+			data := fmt.Sprintf(".%s.%d.linked-data", filepath.Base(path), p.nmarker)
 			must(os.WriteFile(filepath.Join(filepath.Dir(path), data), f.Content, 0o644))
 			if f.Link == "abs" {
 				data = filepath.Join(filepath.Dir(path), data)
